@@ -142,7 +142,7 @@ func init() {
 }
 
 func init() {
-	vrule := "product of: the seven built-in types x {option with spec `[-x...]`, argument with spec `[X...]`} x default {zero, non-zero} x environment lists of 0, 1 or 2 variables each {unset, empty, valid, invalid, (multi) list with blanks, list with an invalid element} x command lines giving the value 0, 1 or 2 times in every spelling; all cases distinct by construction; non-trivial = at least two of {command line, environment, default} offer a value"
+	vrule := "product of: the seven built-in types x {option with spec `[-x...]`, argument with spec `[X...]`} x default {zero, non-zero} x environment lists of 0, 1 or 2 variables each {unset, empty, valid, invalid, (multi) list with blanks, list with an invalid element} x command lines giving the value 0, 1 or 2 times in every spelling; plus, on the same application instance, a second Run whose command line gives one value (it must replace whatever the first parse left); every case with the item on the application and on a lazily initialised sub-command; all cases distinct by construction; non-trivial = at least two of {command line, environment, default} offer a value"
 	addProp(&propDef{
 		ID: "C06", Check: "values", Level: "exploration",
 		Rule:        vrule + "; judged: the variable read inside the Action equals the 10-line reference (command-line values if any - multi: exactly those, single: the last; else the first non-empty valid variable; else the default)",
@@ -150,8 +150,10 @@ func init() {
 	})
 	addProp(&propDef{
 		ID: "C15", Check: "values", Level: "exploration",
-		Rule:        vrule + "; judged: the SetByUser flag read inside the Action is true iff the command line supplied at least one value",
-		Assumptions: []string{"same product as C06"},
+		Stages: []stage{{Name: "values", Build: "plain"}, {Name: "lang", Build: "plain", Check: "lang"}},
+		Rule:        vrule + "; judged: the SetByUser flag read inside the Action is true iff the command line supplied at least one value; second stage: on every accepted (spec, argv) pair of C01's concrete space (custom value types, five containers per application, and on both levels of a depth-1 command tree in the values stage) the SetByUser flag of every container is true iff the reference binds at least one command-line token to it",
+		Assumptions: []string{"same product as C06", "second stage: bound tokens per container from the reference semantics of DESIGN.md section 4"},
+		Budget:      [2]int{1200, 7200},
 	})
 }
 
